@@ -54,6 +54,10 @@ chk("C15", "exploration",
     "exhaustive enumeration of multipart forms (shapes x hostile data menus x every buffer residue) decoded by two independent multipart decoders", "E2",
     "Forms with 0..3 texts x 0..3 files over hostile data menus, and a lead-in sweep over all 8192 residues of the 8 KiB copy buffer, are sent under three write policies; the de-chunked body must decode (own RFC 2046/7578 decoder and the multer crate) to exactly the parts added.",
     "Trusted: reference decoder in harness/src/c15.rs, multer; boundary freshness is probabilistic by design.")
+chk("C16", "model_checking",
+    "explicit-state BFS over API operation histories on real Session/RequestBuilder objects with a reference model; state key = reference values + Arc sharing partition", "E3",
+    "All histories up to the depth bound over {new session, clone, each setter with two values, header/header_append with colliding names, create request, request setters, drop}; in every state each live object's settings snapshot (hook H4) equals the value-semantics reference, the sharing partition is consistent, and every live request is prepared and sent through a scripted world that makes each setting wire-visible.",
+    "Trusted: std Arc::make_mut; no unsafe outside cfg(windows) (scanned and reported); thread interleavings at operation granularity are the explored sequential histories, finer ones would be exploring std's Arc (loom has no make_mut, shuttle's Arc is std's) - a free-running thread run is kept as smoke test only.")
 chk("C19", "model_checking",
     "bounded exhaustive explicit-state exploration with a pausing scripted peer", "E1",
     "The same explorer with a peer that pauses for ever after every possible prefix: the transport reports the moment the client would block; oracle: send() returns once the head is complete and no read asks for more while deliverable data has not been handed out.",
@@ -91,7 +95,7 @@ m = {
         {"name": "E1", "path": "/verif/harness/src/e1.rs", "serves_properties": ["C01", "C02", "C19"], "kind_free_text": "explicit-state search over (scripted transport x real Response), states re-reached by replay, keyed by Debug of the reader stack"},
         {"name": "E2", "path": "/verif/harness/src/", "serves_properties": ["C03", "C04", "C05", "C06", "C07", "C11", "C15"], "kind_free_text": "bounded exhaustive input/configuration enumerators over the real code through the scripted transport (C05 in worker subprocesses)"},
         {"name": "E5", "path": "/verif/harness/src/tlslab.rs", "serves_properties": ["C14"], "kind_free_text": "local TLS lab: real loopback listeners (TLS origin, http/https proxy terminating the inner TLS), committed test PKI, second build against rustls"},
-        {"name": "E3", "path": "/verif/harness/src/redir.rs", "serves_properties": ["C09", "C10"], "kind_free_text": "BFS over scripted redirect worlds with a reference model"},
+        {"name": "E3", "path": "/verif/harness/src/redir.rs", "serves_properties": ["C09", "C10", "C16"], "kind_free_text": "BFS over scripted redirect worlds with a reference model"},
     ],
     "checks": checks,
     "not_applicable": [{"property_id": i, "reason": PENDING.get(i, "check not built yet in this round (work in progress; DESIGN.md section 5 has the plan)")} for i in all_ids if i not in C],
